@@ -131,6 +131,7 @@ type vc struct {
 	imprecise []string
 	trusted   map[string]bool
 	balDecls  map[string]bool
+	ensuresEvaluated map[string]bool
 	heapSort  map[string]string
 	heapMemo  map[string]string
 	epochs    []epochInfo
